@@ -235,10 +235,25 @@ impl Pools {
             .into();
         }
         let max_io = *g.pick(&[1u64, 3, 6, 10]);
-        let inputs: Vec<Input> = (0..g.below(max_io + 1)).map(|_| self.input(g)).collect();
-        let outputs: Vec<Output> = (0..g.below(max_io + 1)).map(|_| self.output(g)).collect();
+        // one transaction in 48 carries one list of 254..300 items (around the one-byte boundary)
+        let long = if g.below(48) == 0 { Some((g.below(5), g.range(254, 300) as usize)) } else { None };
+        let n_of = |which: u64, dflt: u64| -> u64 { match long { Some((w, n)) if w == which => n as u64, _ => dflt } };
+        let n_in = n_of(0, g.below(max_io + 1));
+        let inputs: Vec<Input> = (0..n_in).map(|_| self.input(g)).collect();
+        let n_out = n_of(1, g.below(max_io + 1));
+        let outputs: Vec<Output> = (0..n_out).map(|_| self.output(g)).collect();
         let policies = self.policies(g);
-        let witnesses = self.witnesses(g);
+        let witnesses = match long {
+            Some((2, n)) => (0..n)
+                .map(|_| {
+                    let k = g.below(4) as usize;
+                    Witness::from(g.bytes(k))
+                })
+                .collect(),
+            _ => self.witnesses(g),
+        };
+        let n_slots = n_of(3, g.below(4));
+        let n_proof = n_of(4, g.below(5));
         match kind {
             0 => {
                 let n = g.below(64) as usize;
@@ -247,7 +262,7 @@ impl Pools {
                 s.into()
             }
             1 => {
-                let slots = (0..g.below(4)).map(|_| StorageSlot::new(b32(g), b32(g))).collect();
+                let slots = (0..n_slots).map(|_| StorageSlot::new(b32(g), b32(g))).collect();
                 Transaction::create(g.below(4) as u16, policies, Salt::new(g.bytes32()), slots, inputs, outputs, witnesses).into()
             }
             3 => {
@@ -264,7 +279,7 @@ impl Pools {
                     witness_index: g.below(4) as u16,
                     subsection_index: g.below(300) as u16,
                     subsections_number: g.below(300) as u16 | 1,
-                    proof_set: (0..g.below(5)).map(|_| b32(g)).collect(),
+                    proof_set: (0..n_proof).map(|_| b32(g)).collect(),
                 };
                 Transaction::upload(body, policies, inputs, outputs, witnesses).into()
             }
